@@ -5,6 +5,9 @@ Line protocol (stdlib only, deterministic, one answer line per request line):
 
   A <a> <b>   ->  "<add> <sub> <mul> <div> <floordiv> <mod> <pow> <cmp>"
   N <a>       ->  "<neg>"
+  Q <a> <b> <q> <r>   (plain decimals: the engine's own a // b and a % b)
+              ->  "ok" | "reconstruct" | "range" | "reconstruct,range"
+                  whether q * b + r == a and 0 <= r < |b| hold exactly
 
 Operands:   i<decimal>            an integer (any size; the encoding used by the engine is irrelevant
                                   to the mathematics, only the value matters)
@@ -235,6 +238,14 @@ def answer(line):
         return " ".join(out)
     if parts[0] == "N":
         return negate(parse(parts[1]))
+    if parts[0] == "Q":
+        a, b, q, r = (int(x) for x in parts[1:5])
+        bad = []
+        if q * b + r != a:
+            bad.append("reconstruct")
+        if not (0 <= r < abs(b)):
+            bad.append("range")
+        return ",".join(bad) if bad else "ok"
     raise ValueError("bad request " + line)
 
 
